@@ -22,7 +22,7 @@ import (
 var c17Epoch = time.Unix(1_700_000_000, 0)
 
 type c17Op struct {
-	K    string `json:"k"` // save | resave | remove | read | balsave | balremove (the balance entries of the same cache)
+	K    string `json:"k"` // save | resave | remove | read | expire | balsave | balremove (the balance entries of the same cache)
 	From int    `json:"from"`
 	To   int    `json:"to"`
 	Tx   int    `json:"tx"` // index into the case's transaction list (remove/resave)
@@ -68,6 +68,7 @@ func c17Run(c c17Case) (sig, msg string, nontrivial bool) {
 	var txs []transaction.Transaction
 	model := map[ref.Hash]transaction.Transaction{}
 	removedAfterSave := false
+	expired := map[ref.Hash]bool{}
 	for step, op := range c.Ops {
 		switch op.K {
 		case "save":
@@ -83,6 +84,9 @@ func c17Run(c c17Case) (sig, msg string, nontrivial bool) {
 				continue
 			}
 			tx := txs[op.Tx%len(txs)]
+			if expired[tx.Hash] {
+				continue // saving an expired transaction again is outside what the sequence explores (not triaged)
+			}
 			_, present := model[tx.Hash]
 			err := h.SaveAwaitedTransaction(&tx)
 			if present && err == nil {
@@ -121,6 +125,23 @@ func c17Run(c c17Case) (sig, msg string, nontrivial bool) {
 				delete(model, hash)
 			}
 		case "read":
+		case "expire":
+			// the life window of the cache ends for one saved transaction: its entry disappears, the per-address lists
+			// still name its hash until a reader prunes them; from now on it must not be listed and must not drag a
+			// neighbour out of (or keep a dead hash in) any listing
+			if len(txs) == 0 {
+				continue
+			}
+			t := txs[op.Tx%len(txs)]
+			if _, ok := model[t.Hash]; !ok {
+				continue
+			}
+			if err := h.VerifExpireTransaction(t.Hash); err != nil {
+				continue
+			}
+			delete(model, t.Hash)
+			expired[t.Hash] = true
+			nontrivial = true
 		case "balsave":
 			// the same cache object also holds balances, keyed by the address string the notary passes in
 			h.SaveBalance(ks[op.From%c.Wallets].Addr, spice.New(uint64(step), 7))
@@ -320,7 +341,7 @@ func TestC17(t *testing.T) {
 			c := c17Case{Wallets: rapid.IntRange(2, 5).Draw(rt, "wallets")}
 			n := rapid.IntRange(1, 40).Draw(rt, "n")
 			for i := 0; i < n; i++ {
-				op := c17Op{K: rapid.SampledFrom([]string{"save", "save", "save", "save", "resave", "remove", "remove", "read", "read", "balsave", "balremove"}).Draw(rt, "k")}
+				op := c17Op{K: rapid.SampledFrom([]string{"save", "save", "save", "save", "resave", "remove", "remove", "read", "read", "balsave", "balremove", "expire", "expire"}).Draw(rt, "k")}
 				op.From = rapid.IntRange(0, c.Wallets-1).Draw(rt, "from")
 				op.To = rapid.IntRange(0, c.Wallets-1).Draw(rt, "to")
 				op.Tx = rapid.IntRange(0, 40).Draw(rt, "tx")
